@@ -257,6 +257,13 @@ def run(ctx, replay=None):
                     invariants=['AliasFree', 'Emit'], properties=['OnlyMutateChanges', 'CopyEquals', 'AnswersNeverChange'])
     res = run_tlc('GVHeap', cfg=cfg, workers=8, timeout=3000, heap='8g')
     ctx.add_tlc(res, f'GVHeap: all operation sequences of length {depth} over <= 3 handles')
+    # AliasFree for every number of handles and every depth (TLAPS); the proof depends on the specification only
+    from harness.tlc import run_tlapm
+    proved, tail = run_tlapm(['GVHeap.tla', 'GVHeapProofs.tla'], 'GVHeapProofs.tla')
+    if proved is None:
+        raise RuntimeError('TLAPS could not discharge GVHeapProofs:\n' + tail)
+    ctx.cov['obligations'] = ctx.cov['discharged'] = proved
+    ctx.log(f'TLAPS: AliasFree is an invariant of GVHeap for every bound ({proved} obligations)')
     behs = sorted(set(tuple(tuple(x) for x in t[1]) for t in res.find('HEAP')))   # the same history is emitted once per choice of changed answers
     behs = [list(b) for b in behs]
     if replay:
